@@ -263,9 +263,19 @@ PubTotal(c) == LET E == PubEligible(c) IN SumSeq([i \in DOMAIN E |-> PubPrice(c,
 Enough(c) == Len(PubEligible(c)) > 0 /\ Len(PubEligible(c)) >= c.thr
 Broke(c) == Enough(c) /\ ~c.super /\ bal[c.cons] < PubTotal(c)
 
+\* "the providers named in the context" are the consumer's: the list changes only by an accepted update
+\* that carries a list, and then is that list
+NamedStable ==
+    LET e == ev' IN
+    \A id \in DOMAIN ctx \cap DOMAIN ctx' :
+        ctx'[id].provs # ctx[id].provs =>
+            /\ e.name \in {"UpdateContext", "ModUpdate"} /\ e.ok /\ e.id = id
+            /\ ctx'[id].provs = e.provs
+
 Step_C06 ==
     LET e == ev' IN
     IF IsMeta(e) THEN TRUE
+    ELSE IF ~NamedStable THEN FALSE
     ELSE IF e.name # "StartBatch" THEN Issued = {}
     ELSE IF e.id \notin DOMAIN ctx \/ e.id \notin DOMAIN ctx' THEN Issued = {}
     ELSE LET c == ctx[e.id]
